@@ -110,8 +110,23 @@ JudgeFault(rec) ==
           <<~rec.fired => nOK = Len(rec.in.paras), "writing to a healthy sink failed">>,
           <<r.wf => Len(r.paras) >= nOK, "fewer paragraphs reached the sink than were reported as written">> >>)
 
+\* structs through the Encoder: paragraph k holds Name (always) and Comment (when it has text), nothing else
+JudgeEncStructs(rec) ==
+    LET vs == rec.in.values
+        r == RefRead(rec.w)
+        nName == <<78, 97, 109, 101>>  nComment == <<67, 111, 109, 109, 101, 110, 116>>
+        Want(v) == <<[name |-> nName, lines |-> <<v.Name>>]>> \o (IF v.Comment = <<>> THEN <<>> ELSE <<[name |-> nComment, lines |-> <<v.Comment>>]>>)
+    IN Guarded("encoder-structs",
+       << <<~rec.panic, "panic">>, <<rec.ok, "Encode failed on a supported struct">>, <<r.wf, "the Encoder's output is not a well-formed document">> >>,
+       << <<Len(r.paras) = Len(vs), "n structs written through the Encoder do not read back as n paragraphs">>,
+          <<Len(r.paras) = Len(vs) => \A k \in 1..Len(vs) :
+                Len(r.paras[k]) = Len(Want(vs[k])) /\ \A j \in 1..Len(Want(vs[k])) :
+                    r.paras[k][j].name = Want(vs[k])[j].name /\ r.paras[k][j].lines = Want(vs[k])[j].lines,
+            "a struct written through the Encoder does not read back with its required field (even empty) and without its empty optional field">> >>)
+
 Judge(rec) ==
-    CASE rec.ev = "write_fault" -> JudgeFault(rec)
+    CASE rec.ev = "enc_structs" -> JudgeEncStructs(rec)
+      [] rec.ev = "write_fault" -> JudgeFault(rec)
       [] rec.ev = "read" -> JudgeRead(rec)
       [] rec.ev = "write" -> JudgeWrite(rec)
       [] rec.ev = "rw" -> JudgeRW(rec)
